@@ -543,6 +543,37 @@ def g7_view_requires_filter(prog):
                     seen.add((ik, 'v'))
                     r.viol('G7', key + '/unfiltered-view', top.loc(e['ln']),
                            'views are materialised over an archetype without a dominating filter check for those views: a non-optional view would read a column that does not belong to its component')
+    # sub-views extracted from a row of maybe-uninitialised super views (query-time entries): a non-optional sub-view
+    # is assume_init-ed (G6), so the filter that was found true must have asked for the sub-views themselves
+    def is_subview(c):
+        return c['name'] == 'view' and c['path'].startswith('query::view::subset::') and c['path'].endswith('Sealed::view')
+    for f in prog.fns.values():
+        if f.kind == 'Closure' or (f.impl and f.impl['trait'] and f.impl['trait']['path'].startswith('query::view::subset::')):
+            continue
+        if not any(True for _ in f.body.calls(is_subview)):
+            continue
+        E = pathsem.analyse(prog, f, max_paths=20000)
+        key = '%s -> SubSet::view' % f.path.split('<')[0][:70]
+        r.inst(key)
+        if E.truncated:
+            r.viol('G7', key + '/not-analysable', f.loc(), 'path enumeration cut off')
+            continue
+        bad = False
+        for p in E.paths:
+            for e in p.calls(lambda e: is_subview({'name': e['name'], 'path': e['path']})):
+                g = [a for a in e['f'].get('args', []) if a.get('k') != 'region']
+                sub = g[0] if g else None
+                ok = False
+                for ft in p.calls(lambda c: c['name'] == 'filter' and c['i'] < e['i']):
+                    fg = [a for a in ft['f'].get('args', []) if a.get('k') != 'region']
+                    # trait arguments after Self: the filter type and its indices
+                    if sub is not None and len(fg) > 1 and ty_mentions(fg[1], lambda n: strip_regions(n) == strip_regions(sub)) and p.lookup(ft['ret']) is True:
+                        ok = True
+                if not ok:
+                    bad = True
+        if bad:
+            r.viol('G7', key + '/unfiltered-view', f.loc(),
+                   'sub-views are extracted from a row without a filter for those sub-views having been found true: a non-optional sub-view of an entity lacking the component reads uninitialised memory')
     return r
 
 
